@@ -6,6 +6,7 @@ mod common;
 mod decode;
 mod field;
 mod frame;
+mod lists;
 mod msm;
 mod replay;
 
@@ -23,6 +24,7 @@ fn main() {
         "C02" => decode::c02(&ctx),
         "C07" => bits::c07(&ctx),
         "C10" => msm::c10(&ctx),
+        "C15" => lists::c15(&ctx),
         "C08" => field::c08(&ctx),
         "C11" => field::c11(&ctx),
         "C03" => frame::c03(&ctx),
